@@ -567,6 +567,17 @@ fn main() {
             if try_graph(&gr) { std::process::exit(1); }
         }
     }
+    if std::env::var("VERIF_TIER").map_or(false, |t| t == "thorough") {
+        // thorough: 400 000 pseudo-random graphs with 5..=7 nodes (xorshift seeded by VERIF_SEED), out-degree <= 3
+        let mut x: u64 = std::env::var("VERIF_SEED").ok().and_then(|s| s.parse().ok()).unwrap_or(0u64).wrapping_mul(0x9E3779B97F4A7C15) | 1;
+        let mut rnd = move || { x ^= x << 13; x ^= x >> 7; x ^= x << 17; x };
+        for _ in 0..400_000u32 {
+            let n = 5 + (rnd() % 3) as usize;
+            let g: Vec<Vec<usize>> = (0..n).map(|_| { let d = (rnd() % 4) as usize; (0..d).map(|_| (rnd() % n as u64) as usize).collect() }).collect();
+            tried += 1;
+            if try_graph(&g) { std::process::exit(1); }
+        }
+    }
     for n in 0..=6usize { for p in permutations(n) {
         *cur.lock().unwrap() = format!("{{\"perm\": {:?}}}", p);
         TICK.fetch_add(1, Ordering::SeqCst);
